@@ -791,6 +791,7 @@ _MMRG_TT = contract(
         "copied-notdef": f"implies({_ABSENT} and notdefGlyph is not None, glyphSet.gname['.notdef'] == old(notdefGlyph.name) and glyphSet.uni['.notdef'] == old(notdefGlyph.unicodes))",
     },
     canaries={"never-adds-stand-ins": _MMRG_ENSURES["only-notdef-added"]},
+    merge_branches=False,  # default source / sparse master: two post-states instead of one with ite-merged heap arrays
     # ghosts: the glyph set as the base method leaves it (objects, code points, names)
     ghost_vars={"g1": (Dict(STR, Ref("StubGlyph")), "glyphSet.glyphs"), "u1": (Map(STR, List(INT)), "glyphSet.uni"), "n1": (Map(STR, STR), "glyphSet.gname")},
     ghost={"super().makeMissingRequiredGlyphs(font, glyphSet, sfntVersion, notdefGlyph)": ["g1 = glyphSet.glyphs", "u1 = glyphSet.uni", "n1 = glyphSet.gname"]},
